@@ -267,6 +267,77 @@ func anchoredAnyPatterns() []string {
 	return out
 }
 
+// orderedLiteralPatterns: TWO literals with something that cannot cross a line break (or can: `(?s:.*)`) in between --
+// `foo.*bar` is "foo and, later ON THE SAME LINE, bar"; whoever answers it with two substring searches has to get the line
+// structure of the input right. Pairs of different, equal and overlapping literals (the second contains the first, the
+// first ends with what the second begins with), every spelling of the separator, anchors / outer dot-stars / flags around
+// the shape, three literals. Returns the patterns and, per pattern, the two literals as plain text (for orderedPool).
+func orderedLiteralPatterns() (pats []string, lits map[string][2]string) {
+	lits = map[string][2]string{}
+	add := func(p string, a, b string) {
+		if _, ok := lits[p]; !ok {
+			pats = append(pats, p)
+			lits[p] = [2]string{a, b}
+		}
+	}
+	seps := []string{`.*`, `.+`, `.*?`, `(?s:.*)`, `[^\n]*`, `.`, `.?`, `.{0,3}`, `\s*`, `\S*`}
+	pairs := [][2]string{{"foo", "bar"}, {"foo", "foo"}, {"Lock()", "Unlock()"}, {"aba", "ba"},
+		{"defer ", ".Unlock()"}, {"(", ")"}, {"f", "f"}, {"ab", "b"}, {"a", "ab"}, {"føö", "ø"}, {"bar", "foo"}, {"foo", "\nbar"}, {"o\n", "bar"}}
+	for pi, pr := range pairs {
+		a, b := regexp.QuoteMeta(pr[0]), regexp.QuoteMeta(pr[1])
+		for si, sep := range seps {
+			if pi >= 4 && si != 0 && si != 1 && si != 3 {
+				continue
+			}
+			core := a + sep + b
+			add(core, pr[0], pr[1])
+			if pi < 4 {
+				add(`^`+core, pr[0], pr[1])
+				add(core+`$`, pr[0], pr[1])
+				add(`.*`+core+`.*`, pr[0], pr[1])
+				add(`^`+core+`$`, pr[0], pr[1])
+			}
+		}
+		if pi < 4 {
+			core := a + `.*` + b
+			for _, fl := range []string{`(?s)`, `(?m)`, `(?i)`, `(?U)`, `(?-s)`} {
+				add(fl+core, pr[0], pr[1])
+			}
+			add(`(`+a+`).*`+b, pr[0], pr[1])
+			add(`(?:`+a+`.*)`+b, pr[0], pr[1])
+			add(a+`(?:.*)`+b, pr[0], pr[1])
+			add(a+`.*`+b+`|x`, pr[0], pr[1])
+			add(a+`.*.*`+b, pr[0], pr[1])
+			add(a+`.*`+b+`.*`+a, pr[0], pr[1])
+			add(a+`.*`+a+`.*`+b, pr[0], pr[1])
+		}
+	}
+	return pats, lits
+}
+
+// orderedPool: the two literals and line breaks in every order -- every sequence of up to four items drawn from
+// {first, second, "\n"}, glued together and separated by blanks -- so that first / second lie on the same line, on
+// different lines in either order, several times, with and without a pair on one line; CRLF, too.
+func orderedPool(a, b string) []string {
+	var out []string
+	items := []string{a, b, "\n"}
+	var rec func(prefix []string, n int)
+	rec = func(prefix []string, n int) {
+		if len(prefix) > 0 {
+			out = append(out, strings.Join(prefix, ""), strings.Join(prefix, " "))
+		}
+		if n == 0 {
+			return
+		}
+		for _, it := range items {
+			rec(append(append([]string{}, prefix...), it), n-1)
+		}
+	}
+	rec(nil, 4)
+	out = append(out, a+"\r\n"+a+" "+b, a+"\r\n"+b, a+" "+b+"\r\n", b+"\n"+b+" "+a+"\n"+a+" "+b, a+"\n\n"+a+"x"+b, a+"\n"+b+"\n"+a+"\n"+b+" "+a+b)
+	return out
+}
+
 // metaLiteralPatterns: metacharacters in positions where they are LITERALS -- inside a bracket expression, inside \Q..\E,
 // behind a backslash -- next to real groups. Whoever reads a pattern as text (not as syntax) takes them for operators.
 func metaLiteralPatterns() []string {
@@ -593,6 +664,8 @@ func main() {
 		isMeta[p] = true
 		pats = append(pats, p)
 	}
+	ordPats, ordLits := orderedLiteralPatterns()
+	pats = append(pats, ordPats...)
 	for i := 0; i < *nrand; i++ {
 		pats = append(pats, randomPattern(rng, 3))
 	}
@@ -607,6 +680,9 @@ func main() {
 		var pool []string
 		if isMeta[p] {
 			pool = asciiPool(p)
+		}
+		if l, ok := ordLits[p]; ok {
+			pool = append(pool, orderedPool(l[0], l[1])...)
 		}
 		o := observe(i, p, rng, true, pool)
 		enc.Encode(o)
